@@ -55,6 +55,8 @@ fn word() -> BoxedStrategy<String> {
     prop_oneof![
         4 => select(vec!["。", "？", "!", ".", "、"]).prop_map(|s| s.to_string()),
         4 => select(vec!["な。な", "娘。", "モー娘。", "。な", "あ。", "い！い", "a.b", "字？", "）。"]).prop_map(|s| s.to_string()),
+        // more than 30 bytes before the end of the terminator
+        1 => select(vec!["あいあいあいあいあいあ。い", "あいあいあいあいあい娘。", "Wake Up, Girls and Boys and Girls!", "abcdefghijklmnopqrstuvwxyzabcde!f"]).prop_map(|s| s.to_string()),
         3 => select(vec!["Y!", "a!", "!?", "w?", "a.", "é!", "1.", "B?!"]).prop_map(|s| s.to_string()),
         6 => vec(select(vec!["あ", "い", "漢", "字", "な", "娘", "a", "1"]), 1..=3).prop_map(|v| v.concat()),
     ]
@@ -285,9 +287,10 @@ impl Property for C16 {
             }
             if case.checker {
                 // dictionary words overlapping the terminator group that cross or end at the break
+                // every dictionary word of the sentence is looked at; the implementation only looks at words that start
+                // within 30 bytes before the break (known finding F30: a longer word does not protect its terminator)
                 let p = *e;
-                let lookback = std::cmp::max(30, p - b) - 30 + b;
-                for i in lookback..p {
+                for i in *b..p {
                     if !text.is_char_boundary(i) {
                         continue;
                     }
@@ -296,6 +299,10 @@ impl Property for C16 {
                             let j = i + w.len();
                             let overlaps = j > b + tstart;
                             if overlaps && (j > p || (j == p && w.chars().count() > 1)) {
+                                if p - i > 30 && !ctx.strict {
+                                    rep.excluded = Some("F30");
+                                    continue;
+                                }
                                 rep.fail("break-inside-word", format!("text {:?} limit {:?}: break at byte {} although the dictionary word {:?} at {}..{} contains / ends with the terminator", text, case.limit, p, w, i, j));
                                 return rep;
                             }
@@ -307,6 +314,7 @@ impl Property for C16 {
         // (5) converse on the simple family
         if case.simple && text.chars().count() <= case.limit.unwrap_or(4096) {
             let mut want: Vec<usize> = Vec::new();
+            let mut ambiguous = false;
             if let Some(t) = &case.term {
                 // maximal runs of the terminator unit
                 let mut i = 0usize;
@@ -352,10 +360,21 @@ impl Property for C16 {
                 let mut bos = 0usize;
                 let mut kept = Vec::new();
                 for e in want.iter().cloned() {
+                    if ambiguous {
+                        break;
+                    }
                     let from = std::cmp::max(30, e - bos) - 30 + bos;
                     let veto = (from..e).filter(|i| text.is_char_boundary(*i)).any(|i| {
                         words.iter().any(|w| text[i..].starts_with(w.as_str()) && (i + w.len() > e || (i + w.len() == e && w.chars().count() > 1)))
                     });
+                    // a word that starts earlier than that and reaches the run: the statement wants no break, the
+                    // implementation breaks (known finding F30); either is accepted here, check (4) accounts for it
+                    let far = !veto && (bos..from).filter(|i| text.is_char_boundary(*i)).any(|i| {
+                        words.iter().any(|w| text[i..].starts_with(w.as_str()) && (i + w.len() > e || (i + w.len() == e && w.chars().count() > 1)))
+                    });
+                    if far {
+                        ambiguous = true;
+                    }
                     if veto {
                         rep.class("converse: run inside a dictionary word (no break)");
                     } else {
@@ -369,6 +388,10 @@ impl Property for C16 {
                 want.push(text.len());
             }
             let got: Vec<usize> = sentences.iter().map(|x| x.1).collect();
+            if ambiguous {
+                rep.class("converse: not judged, a word longer than the look-back reaches a run (F30)");
+                return rep;
+            }
             if got != want {
                 rep.fail("missing-break", format!("text {:?} words {:?} checker {}: sentence ends {:?}, every terminator run must end a sentence: {:?}", text, case.words, case.checker, got, want));
                 return rep;
